@@ -136,7 +136,7 @@ def parse_viol_o2(line, v, wrong=False):
 
 
 def run_o2(v, exe, seed, tier):
-    maxn, nalign, fullpos = (128, 16, 128) if tier == "quick" else (512, 16, 128)
+    maxn, nalign, fullpos = (160, 16, 160) if tier == "quick" else (512, 16, 160)
     logf = os.path.join(os.path.dirname(exe), "valgrind.log")
     t0 = time.time()
     try:
@@ -233,6 +233,16 @@ def replay_blob(ctx, c):
     return replay_o2(ctx.o2(c["variant"]), c)
 
 
+def sweep_stale(base):
+    """remove scratch dirs of earlier runs whose process is gone (disk hygiene)"""
+    if not os.path.isdir(base):
+        return
+    for d in os.listdir(base):
+        m = re.search(r"-(\d+)$", d)
+        if m and not os.path.exists("/proc/%s" % m.group(1)):
+            shutil.rmtree(os.path.join(base, d), ignore_errors=True)
+
+
 def main():
     ap = argparse.ArgumentParser()
     ap.add_argument("--tier", default=os.environ.get("VERIF_TIER", "quick"), choices=["quick", "thorough"])
@@ -243,6 +253,7 @@ def main():
     seed = driver.seed()
     th = vlib.tree_hash(vlib.src_root())
     rundir = os.path.join(BUILD, "%s-s%d-%s-%d" % (th, seed, a.tier, os.getpid()))
+    sweep_stale(BUILD)
     shutil.rmtree(rundir, ignore_errors=True)
     os.makedirs(rundir)
     try:
@@ -330,7 +341,10 @@ def main():
                 continue
             path = save_replay(chosen)
             lines.append("VIOLATION property=%s replay=%s" % (PROP, path))
-            if chosen["oracle"] == "O1":
+            if chosen["oracle"] == "O1" and key.endswith(":overread"):
+                lines.append("  key=%s %s(b1,b2,n=%d) touched memory outside its n-byte regions (%s; offsets relative to the region starts; regions are flush against PROT_NONE pages, placement %d, bosmode %d) (%d failing cases)" %
+                             (key, chosen["fn"], chosen["n"], chosen["extra"], chosen["place"], chosen["bosmode"], counts.get(key, 1)))
+            elif chosen["oracle"] == "O1":
                 lines.append("  key=%s %s(a,b,n=%d) returned %d, expected %s%d; a=%s b=%s bosmode=%d place=%d %s (%d failing cases)" %
                              (key, chosen["fn"], chosen["n"], chosen["got"], "nonzero/" if "differ" in key else "", chosen["want"], chosen["a"], chosen["b"],
                               chosen["bosmode"], chosen["place"], chosen["extra"], counts.get(key, 1)))
